@@ -19,6 +19,10 @@ This module ties the model to the real server over TCP:
             driver's program syntax from one description; replies and dumps compared with `eval` of the model.
   values    `return <value>` for every return-value shape; KEYS / ARGV contents incl. invalid UTF-8.
   evalsha   SCRIPT LOAD + EVALSHA vs EVAL of the same source on several selected databases.
+  script-cache  the handle of a script is SHA1(source) computed HERE (hashlib): SCRIPT LOAD must answer it, SCRIPT EXISTS know it,
+            EVALSHA of it (lower / upper case hex, loaded twice) equal EVAL of the source in reply and dataset — for every shape of
+            source text (leading / trailing blanks, tabs, newlines, CRLF, comments, NUL / non-UTF-8 bytes, empty, very long);
+            a hash never loaded, or flushed, is NOSCRIPT without effect.
   refused   every name of `Lua.refusedNames` (except SHUTDOWN / DEBUG, never sent) inside call and pcall:
             error, nothing changed, connection state untouched; names unknown to the executor likewise.
   sandbox   `os`, `io`, `loadfile`, … must be nil / raise; SAVE-like stubs must not touch the disk.
@@ -1587,6 +1591,144 @@ def layer_programs(ck, r, n_hist, per_hist):
         sg.close()
 
 
+# ----------------------------------------------------------------------------------------------------
+# the script cache: the handle of a script is SHA1(source), computed by the CLIENT (hashlib here), for every shape of source text
+# ----------------------------------------------------------------------------------------------------
+SCRIPT_BODIES = [
+    ("rpush-llen", b"redis.call('RPUSH', KEYS[1], ARGV[1])\nreturn {redis.call('LLEN', KEYS[1]), ARGV[1]}", [b"lst"], [b"a"]),
+    ("incr", b"return redis.call('INCRBY', KEYS[1], ARGV[1])", [b"cnt"], [b"5"]),
+    ("pure", b"return {1, 'two', {3}}", [], []),
+    ("failing-call", b"redis.call('SET', 'w', '1')\nreturn redis.call('INCR', 'l0')", [], []),
+]
+
+
+def text_shapes(body):
+    """(shape tag, source bytes): the same chunk in every shape of surrounding / embedded text"""
+    crlf = body.replace(b"\n", b"\r\n")
+    return [
+        ("plain", body),
+        ("leading-space", b"  " + body), ("trailing-space", body + b"   "), ("leading-tab", b"\t" + body), ("trailing-tab", body + b"\t"),
+        ("leading-newline", b"\n" + body), ("trailing-newline", body + b"\n"), ("both-newlines", b"\n\n" + body + b"\n\n"),
+        ("crlf-lines", crlf), ("trailing-crlf", crlf + b"\r\n"), ("leading-crlf", b"\r\n" + crlf), ("trailing-cr", body + b"\r"),
+        ("indented-heredoc", b"\n    " + body.replace(b"\n", b"\n    ") + b"\n  "),
+        ("leading-comment", b"-- a comment\n" + body), ("trailing-comment", body + b" -- trailing comment"),
+        ("trailing-comment-newline", body + b"\n-- done\n"), ("block-comment", b"--[[ block\ncomment ]] " + body),
+        ("blank-lines-inside", body.replace(b"\n", b"\n\n\n")), ("vertical-tab-formfeed", b"\x0b\x0c" + body + b"\x0c"),
+        ("utf8-in-comment", b"-- \xc3\xa9\xe2\x82\xac\n" + body + b"\n-- \xf0\x9f\x98\x80"),
+        ("nul-in-comment", b"-- a\x00b\n" + body), ("nul-in-string", b"local z = 'a\x00b'\n" + body),
+        ("trailing-nul", body + b"\x00"), ("invalid-utf8", b"-- \xff\xfe\n" + body), ("semicolons", b";" + body if False else body + b";"),
+        ("very-long", b"local x = 0\n" + b"x = x + 1 -- padding padding padding padding\n" * 3000 + body),
+    ]
+
+
+EXTRA_SOURCES = [("empty", b"", [], []), ("blank-only", b" \n\t\r\n", [], []), ("comment-only", b"-- nothing\n", [], []),
+                 ("syntax-error", b"return return", [], []), ("syntax-error-padded", b"\n return ( \n", [], []),
+                 ("runtime-error", b" error('boom') ", [], []), ("return-only-padded", b"\n\nreturn 7\n\n", [], [])]
+
+
+def layer_script_cache(ck, r):
+    """EVALSHA sha1(source) == EVAL source, SCRIPT LOAD answers sha1(source), SCRIPT EXISTS knows it, for every shape of source text;
+    a hash that was never loaded, or was flushed, is NOSCRIPT without effect"""
+    rep = ck.rep
+    srv = Server("c12h")
+    c = srv.client()
+    shapes = {}
+    try:
+        cases = []
+        for bi, (bname, body, keys, argv) in enumerate(SCRIPT_BODIES):
+            for tag, src in text_shapes(body):
+                if ck.tier == "quick" and bi >= 2 and tag not in ("plain", "trailing-newline", "leading-space", "crlf-lines", "indented-heredoc"):
+                    continue
+                cases.append((bname + "." + tag, src, keys, argv))
+        cases += [(t, s_, k, a) for t, s_, k, a in EXTRA_SOURCES]
+        for n, (tag, src, keys, argv) in enumerate(cases):
+            db = [0, 6, 0, 15][n % 4]
+            sha = hashlib.sha1(src).hexdigest()
+            shape = tag.split(".")[-1]
+            shapes[shape] = shapes.get(shape, 0) + 1
+            rep.count("script-text." + shape)
+            det = {"layer": "script-cache", "source_hex": hx(src), "source_repr": repr(src[:160]), "sha1_of_source": sha, "keys": [hx(k) for k in keys],
+                   "argv": [hx(a) for a in argv], "db": db, "text_shape": tag}
+
+            def fresh():
+                if c.cmd("FLUSHALL") != ("s", b"OK") or c.cmd("SCRIPT", "FLUSH") != ("s", b"OK") or c.cmd("SELECT", str(db)) != ("s", b"OK"):
+                    raise InternalError("FLUSHALL / SCRIPT FLUSH / SELECT failed")
+                c.cmd("RPUSH", "l0", "x")
+            tail = [str(len(keys))] + keys + argv
+            # (1) EVAL of the source
+            fresh()
+            r_eval = norm(c.cmd("EVAL", src, *tail))
+            d_eval = dump(c)
+            # (2) never loaded: NOSCRIPT, nothing changes, SCRIPT EXISTS 0
+            fresh()
+            d0 = dump(c)
+            never = c.cmd("EVALSHA", sha, *tail)
+            ex0 = c.cmd("SCRIPT", "EXISTS", sha)
+            rep.evaluations += 3
+            if not (never[0] == "e" and never[1].startswith(b"NOSCRIPT")) or dump(c) != d0 or ex0 != ("a", [("i", 0)]):
+                ck.fail("script-cache", "EVALSHA / SCRIPT EXISTS of a hash that was never loaded", dict(det, evalsha=str(never), exists=str(ex0)))
+                continue
+            # (3) SCRIPT LOAD answers sha1(source) — or refuses exactly what EVAL cannot compile
+            loaded = c.cmd("SCRIPT", "LOAD", src)
+            rep.nontrivial(("script-cache", shape, r_eval[0], loaded[0]))
+            if loaded[0] == "e":
+                compile_err = r_eval[0] == "e"
+                ex = c.cmd("SCRIPT", "EXISTS", sha)
+                after = c.cmd("EVALSHA", sha, *tail)
+                if not compile_err or ex != ("a", [("i", 0)]) or not (after[0] == "e" and after[1].startswith(b"NOSCRIPT")):
+                    ck.fail("script-cache", "SCRIPT LOAD refused a source that EVAL runs (or cached a refused one)",
+                            dict(det, script_load=str(loaded), eval_reply=show(r_eval), exists=str(ex), evalsha=str(after)))
+                continue
+            if loaded != ("b", sha.encode()):
+                ck.fail("script-cache", "SCRIPT LOAD did not answer SHA1(source)", dict(det, script_load=str(loaded)))
+                continue
+            ex = c.cmd("SCRIPT", "EXISTS", sha, "0" * 40, sha)
+            if ex != ("a", [("i", 1), ("i", 0), ("i", 1)]):
+                ck.fail("script-cache", "SCRIPT EXISTS does not know SHA1(source) after SCRIPT LOAD", dict(det, exists=str(ex)))
+                continue
+            # (4) EVALSHA sha1(source) == EVAL source: reply and dataset; lower-case and upper-case hex; loaded twice
+            ok = True
+            for how, h in (("lower-case", sha), ("upper-case", sha.upper()), ("loaded-twice", sha)):
+                if how != "lower-case":
+                    fresh()
+                    again = c.cmd("SCRIPT", "LOAD", src)
+                    if how == "loaded-twice":
+                        again = c.cmd("SCRIPT", "LOAD", src)
+                    if again != ("b", sha.encode()):
+                        ck.fail("script-cache", "SCRIPT LOAD of the same source answered differently the second time", dict(det, script_load=str(again)))
+                        ok = False
+                        break
+                r_sha = norm(c.cmd("EVALSHA", h, *tail))
+                d_sha = dump(c)
+                rep.evaluations += 1
+                if FAULT == "sha" and shape == "trailing-newline":
+                    r_sha = ("e", b"")
+                if show(r_sha) != show(r_eval) or d_sha != d_eval:
+                    if how == "upper-case" and r_sha[0] == "e" and ck.note_known("cache:evalsha-case-sensitive", det):
+                        continue
+                    ck.fail("script-cache", "EVALSHA SHA1(source) (%s hex) is not EVAL of the source" % how,
+                            dict(det, evalsha_hex=h, eval_reply=show(r_eval), evalsha_reply=show(r_sha), dump_after_eval=d_eval, dump_after_evalsha=d_sha))
+                    ok = False
+                    break
+            if not ok:
+                continue
+            # (5) SCRIPT FLUSH forgets it: NOSCRIPT without effect
+            fresh()
+            c.cmd("SCRIPT", "LOAD", src)
+            c.cmd("SCRIPT", "FLUSH")
+            d0 = dump(c)
+            gone = c.cmd("EVALSHA", sha, *tail)
+            ex = c.cmd("SCRIPT", "EXISTS", sha)
+            rep.evaluations += 2
+            if not (gone[0] == "e" and gone[1].startswith(b"NOSCRIPT")) or dump(c) != d0 or ex != ("a", [("i", 0)]):
+                ck.fail("script-cache", "SCRIPT FLUSH did not forget the script", dict(det, evalsha=str(gone), exists=str(ex)))
+        rep.extra["script_text_shapes"] = dict(sorted(shapes.items()))
+        rep.extra["script_cache_cases"] = len(cases)
+    finally:
+        c.close()
+        srv.stop()
+
+
 REFUSED_ARGS = {
     "BLPOP": [b"l", b"0"], "BRPOP": [b"l", b"0"], "BZPOPMIN": [b"z", b"0"], "BZPOPMAX": [b"z", b"0"],
     "SELECT": [b"1"], "AUTH": [b"pw"], "QUIT": [], "CLIENT": [b"GETNAME"], "RESET": [],
@@ -1831,8 +1973,9 @@ def main(tier, seed):
     r = Rng(seed)
     try:
         q = tier == "quick"
-        layer_twin(ck, r, 220 if q else 2400, 30 if q else 40)
+        layer_twin(ck, r, 190 if q else 2400, 30 if q else 40)
         layer_programs(ck, r, 80 if q else 1000, 16 if q else 30)
+        layer_script_cache(ck, r)
         layer_refused(ck)
         layer_sandbox(ck)
         layer_atomic(ck, 3, 150 if q else 1500)
@@ -1909,6 +2052,35 @@ def replay(path):
                 return 0 if good else 1
             finally:
                 sg.close()
+        if layer == "script-cache":
+            src = unhx(det["source_hex"])
+            keys, argv = [unhx(x) for x in det["keys"]], [unhx(x) for x in det["argv"]]
+            sha = hashlib.sha1(src).hexdigest()
+            tail = [str(len(keys))] + keys + argv
+            srv = Server("c12h")
+            c = srv.client()
+            try:
+                def fresh():
+                    c.cmd("FLUSHALL"), c.cmd("SCRIPT", "FLUSH"), c.cmd("SELECT", str(det["db"])), c.cmd("RPUSH", "l0", "x")
+                fresh()
+                r_eval, d_eval = norm(c.cmd("EVAL", src, *tail)), dump(c)
+                fresh()
+                loaded = c.cmd("SCRIPT", "LOAD", src)
+                ex = c.cmd("SCRIPT", "EXISTS", sha)
+                r_sha, d_sha = norm(c.cmd("EVALSHA", sha, *tail)), dump(c)
+                print("source (%s)      : %r" % (det.get("text_shape"), src[:200]))
+                print("SHA1(source)      :", sha)
+                print("SCRIPT LOAD       :", loaded)
+                print("SCRIPT EXISTS sha :", ex)
+                print("EVAL source       :", show(r_eval), "| dataset", d_eval)
+                print("EVALSHA sha       :", show(r_sha), "| dataset", d_sha)
+                good = (loaded == ("b", sha.encode()) and ex == ("a", [("i", 1)]) and show(r_eval) == show(r_sha) and d_eval == d_sha) or \
+                    (loaded[0] == "e" and r_eval[0] == "e")
+                print("REPLAY: %s" % ("property holds on this input now" if good else "still fails"))
+                return 0 if good else 1
+            finally:
+                c.close()
+                srv.stop()
         print(json.dumps(det, indent=1)[:4000])
         print("REPLAY: this replay kind (%s) is descriptive; re-run ./check C12 to re-evaluate it" % layer)
         return 1
